@@ -14,6 +14,8 @@ def has(case, extra):
 
 
 PREDICATES = {
+    # a hidden entry (index 8 of the directory menu) as the only foreign content of the output directory
+    "C20-F1": lambda case, clause: case.get("kind") == "dir" and 8 in case.get("subset", ()) and clause == "foreign-content-accepted",
     # interplay of the refinement stages (merge -> overlap removal -> incomplete removal): an input is dropped although no kept
     # hit excuses it; an input-only signature of the three mechanisms matches 91% of all cases, so the clause is the predicate
     "C13-F1": lambda case, clause: case.get("kind") == "refine" and clause == "input-dropped-without-reason",
